@@ -5,7 +5,7 @@ import re
 KEYWORDS = {'func', 'requires', 'ensures', 'modifies', 'loop', 'invariant', 'decreases', 'writes', 'spec',
             'axiom', 'lemma', 'typeinv', 'effect', 'property', 'wrap', 'track', 'trusted', 'assume',
             'pure', 'ovf', 'replay', 'note', 'havoc', 'package', 'funcvar', 'ghost', 'reads', 'bounded', 'use',
-            'assert', 'cut', 'opaque', 'params', 'deadreturns', 'bensures', 'mathint', 'global', 'globalinv', 'exit', 'entry', 'skip', 'callsite', 'frees'}
+            'assert', 'cut', 'opaque', 'params', 'deadreturns', 'bensures', 'mathint', 'global', 'globalinv', 'exit', 'entry', 'skip', 'callsite', 'frees', 'reveal'}
 
 
 class SpecError(Exception):
@@ -487,7 +487,7 @@ class Specs(object):
                 cur.induction = rest
             elif kw == 'params':
                 cur.opts['params'] = rest.replace(',', ' ').split()
-            elif kw in ('mathint', 'deadreturns', 'wrap', 'track', 'ovf', 'pure', 'havoc', 'skip', 'entry', 'exit', 'ghost'):
+            elif kw in ('mathint', 'deadreturns', 'wrap', 'track', 'ovf', 'pure', 'havoc', 'skip', 'entry', 'exit', 'ghost', 'reveal'):
                 cur.opts.setdefault(kw, []).append(rest)
             elif kw == 'trusted':
                 cur.trusted = True
